@@ -72,7 +72,11 @@ def _one_exit(chk, fi, ex, rules):
     scenario_key = _wit(f, ("found", "dry_run", "before", "stepfunc", "wip", "after", "quiet", "capture"))
 
     # ---- K1: every exit, including exceptional ones --------------------------------
-    if "K1" in rules:
+    if "K1" in rules and f["capture"] is False and f.get("cap_events"):
+        chk.fail(_finding("K1", fi, ex, "capture=False but %s" % ",".join(f["cap_events"]),
+                          "Step.run(capture=False) (a nested step of execute_steps) touches the output capture (%s): the outer "
+                          "step's capture is switched off before it ends" % ",".join(f["cap_events"])))
+    elif "K1" in rules:
         if f["cap"] != "idle" or f["cap_err"]:
             chk.fail(_finding("K1", fi, ex, "exit=%s %s" % (ex.kind, _wit(f, ("before", "stepfunc", "after", "capture"))),
                               "output capture still active at %s exit (%s): sys.stdout/sys.stderr stay replaced" % (
